@@ -33,6 +33,10 @@ for d in sorted(glob.glob(f'{V}/benign/*/meta.json')):
     benign.append((os.path.basename(os.path.dirname(d)), json.load(open(d))))
 benign_rows = "\n".join(f"| {bid} | {', '.join(m['touches'])[:60]} | {cell(m['summary'], 150)} | {', '.join(k for k in sorted(m['checks_run_quick']))} | {cell(m['verdict'], 80)} |" for bid, m in benign)
 n_benign_ok = sum(1 for b, m in benign if m['verdict'].startswith('benign: no check raised an alarm') and 'adjudication' not in m)
+n_benign_final = sum(1 for b, m in benign if m.get('rerun_on_final_harness') == 'no alarm')
+_bf_bad = [b for b, m in benign if m.get('rerun_on_final_harness', '').startswith('alarm')]
+_bf_nr = [b for b, m in benign if m.get('rerun_on_final_harness') == 'not re-run']
+benign_final_note = ("" if not _bf_bad else " (alarms: " + ", ".join(_bf_bad) + ", adjudicated below)") + ("" if not _bf_nr else " (not re-run: " + ", ".join(_bf_nr) + ")")
 nfix = len(fixed)
 sec = f"""## 10. Implementation status, results and adjudications (written after the code)
 
@@ -230,7 +234,7 @@ which legal encoding is written, hash function, load factor, buffer growth, mess
 justified ones, refactorings).  `tools/benign_verify.sh` applies each to a scratch worktree and runs the
 quick check of the property itself and (`tools/benign_cross.sh`) of every other property whose code the
 patch touches.  {len(benign)} changes (`/verif/benign/<id>/`: `patch.diff`, `notes.md`, `meta.json`):
-{n_benign_ok} raised no alarm in any check run on them.  The others:
+{n_benign_ok} raised no alarm in any check run on them.  After seed rounds 12-15 had widened many alphabets, every benign change was run once more against the final harness of its own property (`build/benign4.log`): {n_benign_final} of {len(benign)} raise no alarm{benign_final_note}.  The alarms of the first pass:
 
 * `benign/C15-3` (slices emitted arc-first, centre last): C15 reported 372 `primitive.ellipse/off-curve`
   violations - a FALSE ALARM of the check (it assumed where the vertex list of a slice starts).  Corrected:
